@@ -51,8 +51,8 @@ After(d, e) ==
 ObsAll(d, o) == IF ~o.some THEN {} ELSE UNION { ObsFails(d, o.cs[i].c, o.cs[i]) : i \in DOMAIN o.cs }
 
 EventFails(d, e) ==
-  LET f1 == RespFails(d, e, e.r1)
-      f2 == RespFails(d, e, e.r2)
+  LET f1 == RespFails(d, e, e.r1, 1)
+      f2 == RespFails(d, e, e.r2, 2)
       hard == {"Outcome"}
   IN Tag("r1.", f1) \cup Tag("r2.", f2)
      \cup (IF RespSame(e, e.r1, e.r2) THEN {} ELSE {"Sdk.Equal"})
